@@ -1,5 +1,6 @@
 """C01 — one-shot round trip (structural clauses)."""
 import paths
+import slices
 from mir import callee_name
 from terms import ISet, tstr, pstr, is_const, const_val
 from rules.util import *
@@ -69,49 +70,45 @@ def rule_mirror(ctx, cfg, r):
         ev2 = paths.Evaluator(c, effects=E, max_paths=8000, max_blocks=30, stop_blocks=[q for q in heads if q != h])
         for x in ev2.run(f, start_bb=h):
             cps = [e for e in x.effects if e[0] == "call" and e[1].endswith("copy_from_slice")]
-            idx = {e[4]: e for e in x.effects if e[0] == "call" and ("IndexMut" in e[1] or "Index<" in e[1])}
             if not cps:
                 continue
-            def rng_of(t):
-                for st in paths.subterms(t):
-                    if st[0] == "call" and st[3] in idx and idx[st[3]][2][1][0] == "agg":
-                        return idx[st[3]][2][1][4], idx[st[3]][2][0]
-                return None, None
-            first = rng_of(cps[0][2][0])
-            if first[0] is None or not is_dict_place(first[1]):
+            d1, s1 = slices.region(cps[0][2][0]), slices.region(cps[0][2][1])
+            if d1 is None or not is_dict_place(d1.root):
                 continue
-            dst = first[0][0]
+            dst = d1.off
+
+            def min_with(ln, want):
+                """`ln` is a single min(..) one of whose operands equals the linear form `want`"""
+                if ln is None or ln[0] != 0 or len(ln[1]) != 1:
+                    return False
+                (sym, co), = ln[1].items()
+                return co == 1 and sym[0] == "pure" and sym[1] == "min" and any(slices.lin(q) == want for q in sym[2])
             lt = None
-            for a, s in x.atoms:
-                if a[0] == "bin" and a[1] == "Lt" and a[2] == dst and is_const(a[3]):
-                    lt = (s.single(), const_val(a[3]))
+            for a, s_ in x.atoms:
+                if a[0] == "bin" and a[1] == "Lt" and is_const(a[3]) and slices.lin(a[2]) == dst:
+                    lt = (s_.single(), const_val(a[3]))
+                elif a[0] == "bin" and a[1] == "Ge" and is_const(a[3]) and slices.lin(a[2]) == dst and s_.single() is not None:
+                    lt = (1 - s_.single(), const_val(a[3]))
+                elif a[0] == "bin" and a[1] == "Le" and is_const(a[3]) and slices.lin(a[2]) == dst:
+                    lt = (s_.single(), const_val(a[3]) + 1)
             # the chunk copied into the ring must end at or before the ring's end: length = min(LZ_DICT_SIZE - dst, ..)
-            hi1 = first[0][1]
-            nterm = [q for q in sum_parts(hi1) if q[0] == "pure" and q[1] == "min"]
-            ring_ok = bool(nterm) and any(q[0] == "bin" and q[1] == "Sub" and is_const(q[2]) and const_val(q[2]) == SIZE and q[3] == dst for q in nterm[0][2]) and \
-                [q for q in sum_parts(hi1) if q not in nterm] == [dst]
+            ring_ok = min_with(d1.length, slices.lsub((SIZE, {}), dst))
             if ring_ok:
-                r.ok(f.name, "ring-bound", "bulk copy into dict[dst .. dst + min(LZ_DICT_SIZE - dst, n)]: a refill that reaches the ring's end is split there")
+                r.ok(f.name, "ring-bound", "bulk copy into dict[dst ..][.. min(LZ_DICT_SIZE - dst, n)]: a refill that reaches the ring's end is split there")
             else:
-                r.fail(f.name, "ring-bound", "compress_fast copies input into dict[%s .. %s]: the length is not limited to LZ_DICT_SIZE - dst, so a refill that "
+                r.fail(f.name, "ring-bound", "compress_fast copies %s bytes into dict[%s ..]: the length is not limited to LZ_DICT_SIZE - dst, so a refill that "
                        "straddles the end of the ring spills into the mirror area / past the buffer instead of wrapping to offset 0"
-                       % (tstr(dst)[:40], tstr(hi1)[:80]), cps[0][3])
+                       % (str(d1.length)[:80], str(dst)[:40]), cps[0][3])
             if lt is None or lt[1] != GUARD:
-                r.fail(f.name, "mirror-bulk", "bulk dictionary copy at %s is not followed by the mirror test dst_pos < %d" % (tstr(dst)[:40], GUARD), cps[0][3])
+                r.fail(f.name, "mirror-bulk", "bulk dictionary copy at %s is not followed by the mirror test dst_pos < %d" % (str(dst)[:40], GUARD), cps[0][3])
                 continue
             if lt[0] == 1:
                 if len(cps) >= 2:
-                    second = rng_of(cps[1][2][0])
-                    src1 = rng_of(cps[0][2][1])
-                    src2 = rng_of(cps[1][2][1])
-                    lo = second[0][0] if second[0] else None
-                    okk = lo is not None and lo[0] == "bin" and lo[1] == "Add" and dst in (lo[2], lo[3]) and \
-                        any(is_const(q) and const_val(q) == SIZE for q in (lo[2], lo[3])) and src1[0] and src2[0] and src1[0][0] == src2[0][0]
+                    d2, s2 = slices.region(cps[1][2][0]), slices.region(cps[1][2][1])
+                    okk = d2 is not None and s2 is not None and s1 is not None and is_dict_place(d2.root) and \
+                        d2.off == slices.ladd(dst, (SIZE, {})) and s1.root == s2.root and s1.off == s2.off
                     # length m = min(n, GUARD - dst)
-                    hi = second[0][1]
-                    mterm = [q for q in sum_parts(hi) if q[0] == "pure" and q[1] == "min"]
-                    okk = okk and bool(mterm) and any(q[0] == "bin" and q[1] == "Sub" and is_const(q[2]) and const_val(q[2]) == GUARD and q[3] == dst
-                                                      for q in mterm[0][2])
+                    okk = okk and min_with(d2.length, slices.lsub((GUARD, {}), dst))
                     if okk:
                         okbulk += 1
                         r.ok(f.name, "mirror-bulk", "bulk copy mirrored: dict[dst+SIZE ..][..min(n, %d - dst)] from the same source offset" % GUARD, cps[1][3])
@@ -270,6 +267,12 @@ def run(ctx):
     lzbuf.rule_lz_buffer(ctx, cfg, r6)
     r9 = ctx.rule("R01.9", "window accounting: dict.size is clamped to LZ_DICT_SIZE - lookahead_size between every refill and every use as a distance bound", floor=2, config=cfg)
     dp.rule_window_accounting(ctx, cfg, r9)
+    from rules import bitacc
+    r10 = ctx.rule("R01.10", "bit accumulator of compress_lz_codes: the bits appended between two flushes, plus what a flush leaves behind, fit its width", floor=6, config=cfg)
+    bitacc.rule_accumulator(ctx, cfg, r10)
+    from rules import lzbuf as _lzbuf
+    rcap = ctx.rule("R01.11", "LZ token buffer capacity: the bytes one loop iteration may append never exceed the margin of its fullness test", floor=4, config=cfg)
+    _lzbuf.rule_token_buffer_capacity(ctx, cfg, rcap)
     r7 = ctx.rule("R01.7", "stored-block source position advances by exactly the bytes each block encoded", floor=2, config=cfg)
     rule_block_start(ctx, cfg, r7)
     from rules import c08
